@@ -457,8 +457,35 @@ class Assembler:
                 raise ExtractError('lost anchor: closure %d of fn %s (has %d)' % (kidx, fnname, len(closures)))
             ka, kb = closures[kidx]
             txt = ' -> (%s)' % cl['ret'] if cl.get('ret') else ''
-            c_req = self.clauses('requires', cl.get('requires'), '                ', fnname)
-            c_ens = self.clauses('ensures', cl.get('ensures'), '                ', fnname)
+            # `$0`, `$1`, .. in a closure contract stand for the closure's parameter names (robust to renames)
+            pnames, d, want = [], 0, True
+            for kk2 in range(ka + 1, kb):
+                c = s.s(kk2)
+                if s.kind(kk2) == 'p':
+                    if c in '([<':
+                        d += 1
+                    elif c in ')]>':
+                        d -= 1
+                    elif c == ',' and d == 0:
+                        want = True
+                    elif c == ':' and d == 0:
+                        want = False
+                elif want and d == 0 and s.is_id(kk2) and c not in ('mut', 'ref'):
+                    pnames.append(c)
+                    want = False
+            def subst(lst):
+                if not lst:
+                    return lst
+                out = []
+                for x in lst:
+                    for i_, n_ in enumerate(pnames):
+                        x = x.replace('$%d' % i_, n_)
+                    if re.search(r'\$\d', x):
+                        raise ExtractError('lost anchor: closure %d of fn %s has %d parameter(s)' % (kidx, fnname, len(pnames)))
+                    out.append(x)
+                return out
+            c_req = self.clauses('requires', subst(cl.get('requires')), '                ', fnname)
+            c_ens = self.clauses('ensures', subst(cl.get('ensures')), '                ', fnname)
             if c_req or c_ens:
                 txt += '\n' + c_req + c_ens + '            '
             # existing `-> T` on the closure is kept if no ret given
